@@ -24,3 +24,7 @@ CHECKS = {
   "note": TRUST + " Ring identities (content-addressed naming of result rings) are assigned by the harness. Known finding S11 (few-unit rounding differences caused by distant groups) is matched by HistTrace!OnlyRounding."},
 }
 NOT_YET = {("C%02d" % i): "check not built yet in this revision (work in progress, see DESIGN.md section 8)" for i in range(1, 21)}
+CHECKS["C13"] = {"level": "model_checking", "design_ref": "DESIGN.md section 5 / C13",
+  "technique": "TLA+ transformation group (ReprTrace!ApplyG) applied by TLC to the logged base input to validate the harness's transformed executions; solutions related by TLC (bags of canonical rings / covers); Fill algebra lemmas model-checked",
+  "text": "For every base input TLC recomputes each transformed input from the generator list (so the executions compared are exactly those the specification names) and decides the relation between the recorded solutions: identical canonical ring bags for representation changes, swap and reversal (with Positive/Negative exchanged on odd orientation parity), identical cover at mapped clear sample points for translate/transpose/mirror/scale, and the Xor/Difference algebra on observed covers. Bounded exploration (sampled bases and compositions up to length 4).",
+  "note": TRUST}
